@@ -42,7 +42,6 @@ ASSUMED = []  # log of default assumptions taken for comparisons of non-variable
 
 class Sym:
     __slots__ = ("t", "assume")
-    __array_priority__ = 1000
     default_assume = None  # set to 'nonzero' to let `expr == 0` be False for every symbolic expr
 
     def __init__(self, t, assume=None):
@@ -187,7 +186,6 @@ class Sym:
 class CSym:
     """Complex value with symbolic real and imaginary part."""
     __slots__ = ("re", "im")
-    __array_priority__ = 2000
 
     def __init__(self, re, im):
         self.re, self.im = Sym.lift(re), Sym.lift(im)
